@@ -245,6 +245,9 @@ fn check_query_inner(c: &QueryCase, known: &Arc<Known>) -> Verdict {
             Ok(Ok(_)) => j.class("query-ok"),
             Ok(Err(err)) => {
                 j.class("query-err");
+                if std::env::var_os("VH_C20_DEBUG").is_some() {
+                    eprintln!("DBG query-err {:?} -> {}", e.chars().take(60).collect::<String>(), err.to_string().chars().take(160).collect::<String>());
+                }
                 j.class_if(matches!(err, cascette_protocol::ProtocolError::InvalidEndpoint(_)), "rejected-by-validation");
             }
         }
@@ -535,7 +538,12 @@ fn check_cdn_inner(c: &CdnCase, known: &Arc<Known>) -> Verdict {
             return j.finish(nontriv);
         }
         Ok(Ok(_)) => j.class("call-ok"),
-        Ok(Err(_)) => j.class("call-err"),
+        Ok(Err(err)) => {
+            j.class("call-err");
+            if std::env::var_os("VH_C20_DEBUG").is_some() {
+                eprintln!("DBG cdn-err {:?} path={:?} host={}..{} -> {}", c.op, path.chars().take(60).collect::<String>(), c.host_prefix, c.host_tail, err.to_string().chars().take(160).collect::<String>());
+            }
+        }
     }
     if confined(&sb, &mut before, &mut j, &ekey, "CdnClient call", &hostile) {
         return j.finish(true);
